@@ -109,12 +109,16 @@ func cmdCheck(mode string, args []string) {
 	oblName := fs.String("obl", "", "dump: obligation name")
 	noReplay := fs.Bool("noreplay", false, "do not attempt replays")
 	verbose := fs.Bool("v", false, "print every obligation")
+	outDir := fs.String("out", "", "directory for evidence/ and replays/ (default: the verif root)")
 	fs.Parse(args)
 	if *prop == "" {
 		usage()
 	}
 	start := time.Now()
-	run := &Run{Prop: *prop, Tier: *tier, Repo: *repo, Verif: *verif, Pin: *pin, Start: start, NoReplay: *noReplay, Verbose: *verbose}
+	run := &Run{Prop: *prop, Tier: *tier, Repo: *repo, Verif: *verif, Pin: *pin, Start: start, NoReplay: *noReplay, Verbose: *verbose, Out: *outDir}
+	if run.Out == "" {
+		run.Out = *verif
+	}
 	dirs, err := contractPackages(*repo, *prop)
 	if err != nil || len(dirs) == 0 {
 		run.fatal("no contract files mention %s under %s (hooks missing?)", *prop, *repo)
